@@ -143,20 +143,13 @@ func labels(c Case) []string {
 }
 
 var subEnum = vk.Register(&vk.Sub[Case]{Name: "enum", Check: check, NonTrivial: nonTrivial})
+var subLengths = vk.Register(&vk.Sub[Case]{Name: "lengths", Check: check, NonTrivial: nonTrivial, Labels: labels})
 var subRandom = vk.Register(&vk.Sub[Case]{Name: "random", Gen: gen, Check: check, NonTrivial: nonTrivial, Labels: labels})
 
 const both = "ACGTRYSWKMBDHVNacgtryswkmbdhvn"
 
 func genString(t *rapid.T, name string, maxLen int, alpha string) string {
-	n := 0
-	switch cls := rapid.IntRange(0, 9).Draw(t, name+"_size"); {
-	case cls == 0 && maxLen > 100:
-		n = rapid.IntRange(101, maxLen).Draw(t, name+"_len_big")
-	case cls <= 3 && maxLen > 12:
-		n = rapid.IntRange(13, min(100, maxLen)).Draw(t, name+"_len_mid")
-	default:
-		n = rapid.IntRange(0, min(12, maxLen)).Draw(t, name+"_len_small")
-	}
+	n := vk.DrawSize(t, name, 0, maxLen)
 	if n > 64 {
 		return vk.Fill(rapid.Uint64().Draw(t, name+"_fill"), n, alpha)
 	}
@@ -169,7 +162,7 @@ func genString(t *rapid.T, name string, maxLen int, alpha string) string {
 
 func gen(t *rapid.T) Case {
 	alpha := rapid.SampledFrom([]string{both, both, ref.IUPACCodes, "ACGT", "acgtn", "ACGTN"}).Draw(t, "alphabet")
-	maxLen := vk.Pick(2000, 10000)
+	maxLen := 10000
 	c := Case{}
 	if rapid.IntRange(0, 4).Draw(t, "make_palindrome") == 0 {
 		h := genString(t, "half", 60, alpha)
@@ -231,6 +224,21 @@ func TestSub_enum(t *testing.T) {
 			return
 		}
 		enum(both, mixedMax, true)
+	})
+}
+
+// TestSub_lengths evaluates every clause on one string of every length 0..10^4 (prefixes of one
+// mixed-case filler string that depends on VERIF_SEED), so that no length in the quantified range
+// is left to chance.
+func TestSub_lengths(t *testing.T) {
+	base := vk.Fill(vk.Seed(), 10000, both)
+	vk.RunEnum(t, subLengths, "one mixed-case string of every length 0..10000", true, func(yield func(Case) bool) {
+		for n := 0; n <= len(base); n++ {
+			off := n % 89
+			if !yield(Case{S: base[:n], B: base[off : off+n%17]}) {
+				return
+			}
+		}
 	})
 }
 
